@@ -34,6 +34,13 @@ func (src *Rollout) ConvertTo(dst conversion.Hub) error {
 		obj.ObjectMeta = src.ObjectMeta
 		obj.Spec = v1beta1.RolloutSpec{}
 		srcSpec := src.Spec
+		// workloadRef and canary are optional in the v1alpha1 schema
+		if srcSpec.ObjectRef.WorkloadRef == nil {
+			srcSpec.ObjectRef.WorkloadRef = &WorkloadRef{}
+		}
+		if srcSpec.Strategy.Canary == nil {
+			srcSpec.Strategy.Canary = &CanaryStrategy{}
+		}
 		obj.Spec.WorkloadRef = v1beta1.ObjectRef{
 			APIVersion: srcSpec.ObjectRef.WorkloadRef.APIVersion,
 			Kind:       srcSpec.ObjectRef.WorkloadRef.Kind,
@@ -171,6 +178,10 @@ func (dst *Rollout) ConvertFrom(src conversion.Hub) error {
 	case *v1beta1.Rollout:
 		srcV1beta1 := src.(*v1beta1.Rollout)
 		dst.ObjectMeta = srcV1beta1.ObjectMeta
+		if srcV1beta1.Spec.Strategy.IsEmptyRelease() {
+			// neither canary nor blueGreen is set, nothing to convert
+			return nil
+		}
 		if !srcV1beta1.Spec.Strategy.IsCanaryStragegy() {
 			// only v1beta1 supports bluegreen strategy
 			// Don't log the message because it will print too often
@@ -319,6 +330,10 @@ func (src *BatchRelease) ConvertTo(dst conversion.Hub) error {
 		obj.ObjectMeta = src.ObjectMeta
 		obj.Spec = v1beta1.BatchReleaseSpec{}
 		srcSpec := src.Spec
+		// workloadRef is optional in the v1alpha1 schema
+		if srcSpec.TargetRef.WorkloadRef == nil {
+			srcSpec.TargetRef.WorkloadRef = &WorkloadRef{}
+		}
 		obj.Spec.WorkloadRef = v1beta1.ObjectRef{
 			APIVersion: srcSpec.TargetRef.WorkloadRef.APIVersion,
 			Kind:       srcSpec.TargetRef.WorkloadRef.Kind,
